@@ -92,6 +92,78 @@ class CodeGet:
         return untens(rel['st_Weyl_down4'])
 
 
+class _FloatU:
+    """spec universe seen as plain float arrays (values of the jets at the probe point)"""
+
+    def __init__(self, U):
+        self.U = U
+
+    def __getitem__(self, k):
+        from engine import native
+        a = np.asarray(self.U[k], dtype=object)
+        out = np.zeros(a.shape, dtype=complex if any(isinstance(e, CJ) for e in a.flat) else float)
+        for idx in (np.ndindex(*a.shape) if a.shape else [()]):
+            out[idx] = native.fval(a[idx])
+        return out
+
+
+class NativeGet:
+    """lemma getter on the REAL AurelCore (binary64, 8th-order finite differences on a 13^3 grid whose input fields
+    are the Taylor polynomials of the float scenario): values at the probe point.  Used only to replay a refuted lemma."""
+    kind = 'native'
+
+    def __init__(self, scen, seed, relkw=None):
+        from engine import native
+        self.native = native
+        self.F, self.Uj, env = native.float_world(scen, seed)
+        self.U = _FloatU(self.Uj)
+        self.relkw = relkw or {}
+        self.rel = self._make()
+
+    def _make(self):
+        rel, offs = self.native.make_native(self.Uj, **self.relkw)
+        for k, v in self.Uj.inputs.items():
+            rel.data[k] = self.native.field_of(v, offs)
+        rel.freeze_data()
+        return rel
+
+    def _c(self, v):
+        ic = self.native.IC
+        return np.asarray(v)[..., ic, ic, ic]
+
+    def __getitem__(self, k):
+        return self._c(self.rel[k])
+
+    def weyl_branch(self, cached):
+        rel = self._make()
+        if cached:
+            rel['st_Riemann_down4']
+        return self._c(rel['st_Weyl_down4'])
+
+
+def native_lemma_replay(fn, label, scen, seed, relkw=None, tol=2e-6):
+    """-> (found, text): the identity evaluated on the real AurelCore"""
+    try:
+        g = NativeGet(scen, seed, relkw)
+        rows = fn(g)
+    except Exception as e:
+        return False, f'lemma not replayable natively ({type(e).__name__}: {e})'
+    for lab, lhs, rhs in rows:
+        if lab != label:
+            continue
+        a = np.asarray(lhs, dtype=complex)
+        b = np.asarray(rhs, dtype=complex) if not np.isscalar(rhs) else np.full(a.shape, rhs, dtype=complex)
+        if b.shape != a.shape:
+            b = np.broadcast_to(b, a.shape)
+        scale = 1.0 + max(float(np.max(np.abs(a))) if a.size else 0.0, float(np.max(np.abs(b))) if b.size else 0.0)
+        err = float(np.max(np.abs(a - b))) if a.size else 0.0
+        idx = np.unravel_index(int(np.argmax(np.abs(a - b))), a.shape) if a.size and a.shape else ()
+        txt = (f'real AurelCore (fd_order 8, 13^3 grid, scenario {scen}): identity "{label}" at the probe point: max |lhs - rhs| = {err:.3e} '
+               f'(scale {scale:.3e}) at component {tuple(int(i) for i in idx)}: lhs = {a[idx] if a.shape else a}, rhs = {b[idx] if b.shape else b}')
+        return err > tol * scale, txt
+    return False, f'label {label!r} not produced by the lemma on the native getter'
+
+
 # ---------------------------------------------------------------------------
 # each lemma: g -> list of (label, lhs, rhs)
 def L_inverse(g):
@@ -394,4 +466,6 @@ def lemma_obligations(R, worlds, lemmas, scens, npoints=1, backend='pit-exact', 
                 for label, bad in results.items():
                     R.ob(f'lemma.{lname}:{label}[{scen}|{kind}]', lname, 'refuted' if bad else 'discharged', backend,
                          secs / n, 'identity fails' if bad else '', sorted(set(bad)) or None,
-                         witness=dict(scenario=scen, seed=worlds.seed))
+                         witness=dict(scenario=scen, seed=worlds.seed),
+                         replay=(None if kind == 'spec' else
+                                 (lambda o, fn=fn, label=label, scen=scen: native_lemma_replay(fn, label, scen, worlds.seed, relkw))))
